@@ -128,6 +128,9 @@ type Config struct {
 	MaxSteps    []int
 	RecordTrace bool
 	SaltPreempt bool
+	// NoPoints: do not keep the list of scheduling decisions (very long single-thread runs whose only
+	// question is whether they terminate within the horizon)
+	NoPoints bool
 }
 
 type TraceStep struct {
@@ -193,10 +196,23 @@ func Active() bool { return cur.Load() != nil }
 func Point(k Kind, addr uintptr) {
 	s := cur.Load()
 	if s == nil {
+		if budget.Load() != 0 && budget.Add(-1) <= 0 {
+			budget.Store(0)
+			panic(BudgetExceeded)
+		}
 		return
 	}
 	s.point(k, addr, 0)
 }
+
+// A budget of synchronisation operations for code that runs WITHOUT the scheduler (long sequential
+// histories): when it is used up the running call panics with BudgetExceeded, so a call that spins
+// forever becomes a verdict of the sequence search instead of a hung worker. 0 = no budget.
+var budget atomic.Int64
+
+const BudgetExceeded = "vshim: the budget of synchronisation operations is used up (the call does not terminate)"
+
+func SetBudget(n int64) { budget.Store(n) }
 
 func Point2(k Kind, addr, addr2 uintptr) {
 	s := cur.Load()
@@ -500,7 +516,9 @@ func (s *Sched) schedule() int {
 	th := &s.th[next]
 	k, a, a2 := th.pendK, th.pendA, th.pendA2
 	preempt := prevEnabled && next != prev
-	s.res.Points = append(s.res.Points, PointRec{Enabled: en, Sleep: s.sleep, Tid: uint8(next), Kind: k, PrevEn: prevEnabled, Preempt: preempt})
+	if !s.cfg.NoPoints {
+		s.res.Points = append(s.res.Points, PointRec{Enabled: en, Sleep: s.sleep, Tid: uint8(next), Kind: k, PrevEn: prevEnabled, Preempt: preempt})
+	}
 	s.res.Steps++
 	if preempt {
 		s.preempts++
